@@ -1,0 +1,38 @@
+//go:build verif
+
+package cbe
+
+import "io"
+
+// Verification hooks (build tag "verif" only): expose internals to the
+// verification harness in /verif. Not part of the library.
+
+// VerifNewReaderAdapter returns the reader adapter the CBE Reader puts in
+// front of its io.Reader.
+func VerifNewReaderAdapter(reader io.Reader) io.Reader {
+	a := &readerAdapter{}
+	a.Init(reader)
+	return a
+}
+
+// VerifReadBytes runs Reader.ReadBytes(count) on a fresh Reader over reader
+// and returns a copy of the bytes, the capacity of the internal buffer
+// afterwards, and the recovered error if the read failed.
+func VerifReadBytes(reader io.Reader, count int) (data []byte, bufferCap int, err error) {
+	r := NewReader(nil)
+	defer func() {
+		bufferCap = cap(r.buffer)
+		if rec := recover(); rec != nil {
+			if e, ok := rec.(error); ok {
+				err = e
+			} else {
+				err = io.ErrUnexpectedEOF
+			}
+		}
+	}()
+	r.adapter.Init(reader)
+	r.reader = &r.adapter
+	b := r.ReadBytes(count)
+	data = append([]byte{}, b...)
+	return
+}
